@@ -12,6 +12,8 @@ CONSTANTS
   Penalty = 2
   CooldownSkipsChecks = FALSE
   InvalidKeyNoPenalty = FALSE
+  Versions = {"cur"}
+  OldVersionSkipsPow = FALSE
 INVARIANTS Reach_AtCooldownEnd
 VIEW View
 CONSTRAINT Bound
